@@ -164,22 +164,60 @@ theorem C05_id_nonempty (cfg : Cfg) (fresh : String) (n : Name) (as : List Attr)
   · refine ⟨idAttr fresh, ?_, rfl, hf⟩
     simp [hfound]
 
-/-- on a stream whose encoder has a local address (server-to-server) every outgoing stanza
-carries a non-empty `from` -/
-theorem C05_from_s2s (cfg : Cfg) (fresh : String) (n : Name) (as : List Attr)
+/-- on a stream whose encoder has an address every outgoing stanza carries a non-empty `from`:
+the caller's, else the encoder's -/
+theorem C05_from_cfg (cfg : Cfg) (fresh : String) (n : Name) (as : List Attr)
     (hs : isStanzaEmptySpace n = true) (hns : cfg.ns ≠ "") (hfrom : cfg.from_ ≠ "") :
-    ∃ a ∈ startAttrs (encStart cfg fresh 1 n as), a.name.loc = "from" ∧ a.value ≠ "" := by
+    ∃ a ∈ startAttrs (encStart cfg fresh 1 n as), a.name.loc = "from" ∧ a.value ≠ "" ∧
+      (found as "from" = false → a.value = cfg.from_) := by
   rw [C05_stanza_attrs cfg fresh n as hs hns]
   by_cases hfound : found as "from" = true
-  · simp only [found, List.any_eq_true, Bool.and_eq_true, beq_iff_eq, bne_iff_ne, ne_eq] at hfound
+  · have hfound' := hfound
+    simp only [found, List.any_eq_true, Bool.and_eq_true, beq_iff_eq, bne_iff_ne, ne_eq] at hfound
     obtain ⟨a, ha, hl, hv⟩ := hfound
-    refine ⟨a, ?_, hl, hv⟩
+    refine ⟨a, ?_, hl, hv, fun h => by simp [hfound'] at h⟩
     simp only [List.mem_append, List.mem_filter]
     left; left
     refine ⟨ha, ?_⟩
     simp [keepAttr, notXmlns, hl, hv]
-  · refine ⟨fromAttr cfg, ?_, rfl, hfrom⟩
+  · refine ⟨fromAttr cfg, ?_, rfl, hfrom, fun _ => rfl⟩
     simp [hfound, hfrom]
+
+/-- the source of the encoder's address as the repository has it: the one assignment to the
+`from` field of a stanzaEncoder (regenerated: function and assigned expression) -/
+def genFromSource : FromSource :=
+  match Generated.C05.encoderFrom with
+  | some [(_, e)] => FromSource.ofExpr e
+  | _ => .other
+
+/-- regenerated: there is exactly one assignment to the encoder's `from` field, what it assigns is
+the session's local address (`s.LocalAddr()` or the field that method returns), and
+`LocalAddr()` returns the `to` of the input stream info -/
+theorem C05_gen_from_source :
+    genFromSource = .localAddr ∧ Generated.C05.localAddrReturns = some "s.in.Info.To" := by decide
+
+/-- **server-to-server streams**: whatever addresses the session holds (told beforehand or
+learnt from the peer's stream header, initiated or received), when it reports a non-empty
+`LocalAddr()` every outgoing stanza carries a non-empty `from`, and where the caller gave none
+it is exactly the address `LocalAddr()` reports -/
+theorem C05_from_s2s (a : Addrs) (fresh : String) (n : Name) (as : List Attr)
+    (hs : isStanzaEmptySpace n = true) (hl : a.localAddr ≠ "") :
+    ∃ x ∈ startAttrs (encStart (sessionCfg genFromSource nsServer a) fresh 1 n as),
+      x.name.loc = "from" ∧ x.value ≠ "" ∧ (found as "from" = false → x.value = a.localAddr) := by
+  rw [C05_gen_from_source.1]
+  have hc : sessionCfg .localAddr nsServer a = ⟨nsServer, a.localAddr⟩ := by
+    simp [sessionCfg, FromSource.pick, Addrs.localAddr]
+  rw [hc]
+  exact C05_from_cfg ⟨nsServer, a.localAddr⟩ fresh n as hs (by simp [nsServer]) hl
+
+/-- the statement depends on WHICH address the encoder is given: taken from the output stream
+info instead, a received session that learnt its address from the peer's header (`to=` → input
+info; its output info has no `from`) sends stanzas without `from` although `LocalAddr()` is set -/
+theorem C05_from_s2s_fails_out_from :
+    let a : Addrs := ⟨"capulet.example", "", "", ""⟩
+    a.localAddr ≠ "" ∧
+    ∀ x ∈ startAttrs (encStart (sessionCfg .outFrom nsServer a) "ID#" 1 ⟨"", "message"⟩ []), x.name.loc ≠ "from" := by
+  decide
 
 /-- on a client stream (no encoder address) no `from` is invented -/
 theorem C05_from_c2s (cfg : Cfg) (fresh : String) (n : Name) (as : List Attr)
@@ -226,6 +264,37 @@ theorem C05_non_stanza_untouched (cfg : Cfg) (fresh : String) (d : Int) (n : Nam
   rcases h with h | h
   · simp [h]
   · simp [h]
+
+/-- **one namespace declaration per start tag**: whenever the name handed to the XML encoder
+carries a namespace (for which the encoder writes the `xmlns` declaration itself) no attribute
+named `xmlns` is left, at any depth, stanza or not, whatever spelling the caller used (name
+without namespace plus explicit `xmlns` attribute included): the start tag never declares the
+default namespace twice -/
+theorem C05_single_ns_declaration (cfg : Cfg) (fresh : String) (d : Int) (n : Name) (as : List Attr)
+    (m : Name) (hm : tokName (encStart cfg fresh d n as) = some m) (hsp : m.space ≠ "") :
+    ∀ a ∈ startAttrs (encStart cfg fresh d n as), a.name.loc ≠ "xmlns" := by
+  unfold encStart at hm ⊢
+  by_cases hc : (d == 1 && isStanzaEmptySpace n) = true
+  · rw [if_pos hc] at hm ⊢
+    simp only [tokName, Option.some.injEq] at hm
+    simp only [startAttrs, dropXmlns, hm, bne_iff_ne, ne_eq, hsp, not_false_eq_true, if_true]
+    intro a ha
+    simpa [notXmlns] using (List.mem_filter.mp ha).2
+  · rw [if_neg hc] at hm ⊢
+    simp only [tokName, Option.some.injEq] at hm
+    subst hm
+    simp only [startAttrs, dropXmlns, bne_iff_ne, ne_eq, hsp, not_false_eq_true, if_true]
+    intro a ha
+    simpa [notXmlns] using (List.mem_filter.mp ha).2
+
+/-- the order of the two steps matters: with the `xmlns` loop BEFORE the stamping step a
+top-level `<message xmlns="jabber:client">` given with no namespace in its name keeps the
+attribute and gets the stream namespace in its name as well: two declarations, not
+well-formed -/
+theorem C05_early_filter_duplicates_xmlns :
+    let t := encStartEarly ⟨nsClient, ""⟩ "ID#" 1 ⟨"", "message"⟩ [⟨⟨"", "xmlns"⟩, nsClient⟩]
+    tokName t = some ⟨nsClient, "message"⟩ ∧ ∃ a ∈ startAttrs t, a.name.loc = "xmlns" := by
+  decide
 
 /-! ### The entry points hand exactly one complete element to the encoder -/
 
